@@ -4,6 +4,7 @@ Property theorems `c19_*`; helper lemmas live in `namespace Aux`.
 Model: EkwVerif/Model/Builder.lean (cascade/low/builders.py after the C19 `fix:` commits).
 -/
 import EkwVerif.Model.Builder
+import EkwVerif.Props.C16
 
 namespace EkwVerif.Builder
 
@@ -47,7 +48,8 @@ def SigKnown (env : TyEnv) (s : Sig) : Prop :=
 instance (env : TyEnv) (s : Sig) : Decidable (SigKnown env s) := by unfold SigKnown; infer_instance
 
 def OpKnown (env : TyEnv) : Op → Prop
-  | .fromCallable s => SigKnown env s
+  | .fromCallable s _ => SigKnown env s
+  | .fromEntrypoint _ schema out _ => (∀ k ty, (k, ty) ∈ schema → TyKnown env ty) ∧ TyKnown env out
   | _ => True
 
 namespace Aux
@@ -347,11 +349,55 @@ theorem build_total (env : TyEnv) (b : JobBuilder) (h : NodesKnown env b.nodes) 
   obtain ⟨es, he⟩ := he
   unfold build
   simp only [hs, he]
-  by_cases hn : s ++ es = []
-  · left; exact ⟨{ tasks := b.nodes, edges := b.edges }, by simp [hn]⟩
-  · right; exact ⟨s ++ es, hn, by simp [hn]⟩
+  by_cases hn : s ++ es ++ fanInErrors b.edges [] = []
+  · left; exact ⟨{ tasks := b.nodes, edges := b.edges }, by rw [if_pos hn]⟩
+  · right; exact ⟨s ++ es ++ fanInErrors b.edges [], hn, by rw [if_neg hn]⟩
 
-theorem fromCallable_known (env : TyEnv) (s : Sig) (h : SigKnown env s) : TaskKnown env (fromCallable s) := by
+/-- what an accepting `build` has established -/
+theorem build_job_inv (env : TyEnv) (b : JobBuilder) (j : Job) (h : build env b = .ok (.job j)) :
+    collect (staticChecks env b.nodes) = .ok [] ∧ collect (b.edges.map (edgeErrors env b.nodes)) = .ok [] ∧
+    fanInErrors b.edges [] = [] ∧ j = { tasks := b.nodes, edges := b.edges } := by
+  unfold build at h
+  cases hs : collect (staticChecks env b.nodes) with
+  | error e => simp [hs] at h
+  | ok s =>
+    simp only [hs] at h
+    cases he : collect (b.edges.map (edgeErrors env b.nodes)) with
+    | error e => simp [he] at h
+    | ok es =>
+      simp only [he] at h
+      by_cases hn : s ++ es ++ fanInErrors b.edges [] = []
+      · rw [if_pos hn] at h
+        simp only [Except.ok.injEq, Result.job.injEq] at h
+        simp only [List.append_eq_nil_iff] at hn
+        refine ⟨by rw [hn.1.1], by rw [hn.1.2], hn.2, h.symm⟩
+      · rw [if_neg hn] at h
+        simp at h
+
+/-- no fan-in problem ⇔ no edge's sink input was fed before, and the sink inputs are pairwise distinct -/
+theorem fanInErrors_nil (es : List Edge) (fed : List (String × Into)) :
+    fanInErrors es fed = [] ↔ (∀ e ∈ es, e.sinkInput ∉ fed) ∧ (es.map Edge.sinkInput).Nodup := by
+  induction es generalizing fed with
+  | nil => simp [fanInErrors]
+  | cons e es ih =>
+    simp only [fanInErrors, List.append_eq_nil_iff, ih, List.map_cons, List.nodup_cons, List.mem_cons,
+      forall_eq_or_imp, List.mem_map]
+    constructor
+    · rintro ⟨h1, h2, h3⟩
+      have h1' : e.sinkInput ∉ fed := by
+        intro hc; simp [hc] at h1
+      refine ⟨⟨h1', fun x hx hc => h2 x hx (Or.inr hc)⟩, ?_, h3⟩
+      rintro ⟨x, hx, hxe⟩
+      exact h2 x hx (Or.inl hxe)
+    · rintro ⟨⟨h1, h2⟩, h3, h4⟩
+      refine ⟨by simp [h1], ?_, h4⟩
+      intro x hx hc
+      rcases hc with hc | hc
+      · exact h3 ⟨x, hx, hc⟩
+      · exact h2 x hx hc
+
+theorem fromCallable_known (env : TyEnv) (s : Sig) (environment : List String) (h : SigKnown env s) :
+    TaskKnown env (fromCallable s environment) := by
   constructor
   · intro k ty hm
     simp only [fromCallable, dictOf] at hm
@@ -376,7 +422,17 @@ def ObjOk (env : TyEnv) : Obj → Prop
 theorem evalOp_ok (env : TyEnv) (store : List Obj) (op : Op) (hs : ∀ o ∈ store, ObjOk env o)
     (hop : OpKnown env op) : ObjOk env (evalOp env store op) := by
   cases op with
-  | fromCallable s => exact fromCallable_known env s hop
+  | fromCallable s environment => exact fromCallable_known env s environment hop
+  | fromEntrypoint ep schema out environment =>
+    constructor
+    · intro k ty hm
+      simp only [fromEntrypoint, dictOf] at hm
+      rcases mem_update _ _ _ hm with hm | hm
+      · cases hm
+      · exact hop.1 k ty hm
+    · intro k ty hm
+      simp only [fromEntrypoint, List.mem_singleton, Prod.mk.injEq] at hm
+      rw [hm.2]; exact hop.2
   | withValues t args kwargs =>
     simp only [evalOp]
     cases h : store[t]? with
@@ -419,7 +475,7 @@ theorem evalOp_ok (env : TyEnv) (store : List Obj) (op : Op) (hs : ∀ o ∈ sto
       cases ob with
       | builder jb =>
         have h1 : NodesKnown env jb.nodes := hs _ (List.mem_of_getElem? hb)
-        exact h1
+        cases frum <;> exact h1
       | _ => trivial
   | build b =>
     simp only [evalOp]
@@ -465,54 +521,35 @@ open Aux
 /-! ### property theorems -/
 
 /-- **Accepted ⇒ well formed.**  If `build` accepts, the job carries exactly the builder's
-tasks and edges, and every edge starts at an existing output of an existing task, ends at an
-existing task and (keyword edge) an existing parameter of compatible declared type. -/
+tasks and edges, every edge starts at an existing output of an existing task, ends at an
+existing task and (keyword edge) an existing parameter of compatible declared type, and no two
+edges end at the same input of the same task. -/
 theorem c19_accepted_wellformed (env : TyEnv) (b : JobBuilder) (j : Job)
     (h : build env b = .ok (.job j)) :
-    j.tasks = b.nodes ∧ j.edges = b.edges ∧ ∀ e ∈ j.edges, EdgeOk env j.tasks e := by
-  unfold build at h
-  cases hs : collect (staticChecks env b.nodes) with
-  | error e => simp [hs] at h
-  | ok s =>
-    simp only [hs] at h
-    cases he : collect (b.edges.map (edgeErrors env b.nodes)) with
-    | error e => simp [he] at h
-    | ok es =>
-      simp only [he] at h
-      by_cases hn : s ++ es = []
-      · simp only [hn, ↓reduceIte, Except.ok.injEq, Result.job.injEq] at h
-        subst h
-        refine ⟨rfl, rfl, ?_⟩
-        intro e hmem
-        have hes : es = [] := (List.append_eq_nil_iff.mp hn).2
-        rw [hes] at he
-        exact edgeErrors_ok_nil env b.nodes e (collect_ok_nil _ he _ (List.mem_map_of_mem hmem))
-      · simp [hn] at h
+    j.tasks = b.nodes ∧ j.edges = b.edges ∧ (∀ e ∈ j.edges, EdgeOk env j.tasks e) ∧
+    (j.edges.map Edge.sinkInput).Nodup := by
+  obtain ⟨_, he, hf, rfl⟩ := build_job_inv env b j h
+  refine ⟨rfl, rfl, ?_, ((fanInErrors_nil b.edges []).mp hf).2⟩
+  intro e hmem
+  exact edgeErrors_ok_nil env b.nodes e (collect_ok_nil _ he _ (List.mem_map_of_mem hmem))
 
 /-- Accepted jobs also have every keyword static of a declared parameter of the declared type. -/
 theorem c19_accepted_statics (env : TyEnv) (b : JobBuilder) (j : Job)
     (h : build env b = .ok (.job j)) :
     ∀ n t, (n, t) ∈ j.tasks → ∀ k v, (k, v) ∈ t.kw → StaticOk env t k v := by
-  unfold build at h
-  cases hs : collect (staticChecks env b.nodes) with
-  | error e => simp [hs] at h
-  | ok s =>
-    simp only [hs] at h
-    cases he : collect (b.edges.map (edgeErrors env b.nodes)) with
-    | error e => simp [he] at h
-    | ok es =>
-      simp only [he] at h
-      by_cases hn : s ++ es = []
-      · simp only [hn, ↓reduceIte, Except.ok.injEq, Result.job.injEq] at h
-        subst h
-        intro n t hnt k v hkv
-        have hs0 : s = [] := (List.append_eq_nil_iff.mp hn).1
-        rw [hs0] at hs
-        apply staticCheck_ok_nil env n t k v
-        apply collect_ok_nil _ hs
-        simp only [staticChecks, List.mem_flatMap, List.mem_map]
-        exact ⟨(n, t), hnt, (k, v), hkv, rfl⟩
-      · simp [hn] at h
+  obtain ⟨hs, _, _, rfl⟩ := build_job_inv env b j h
+  intro n t hnt k v hkv
+  apply staticCheck_ok_nil env n t k v
+  apply collect_ok_nil _ hs
+  simp only [staticChecks, List.mem_flatMap, List.mem_map]
+  exact ⟨(n, t), hnt, (k, v), hkv, rfl⟩
+
+/-- **Rejected ⇐ an input fed twice.** Whenever two edges of the description end at the same input of
+the same task, `build` does not return a job (it returns problems, or raises for a non-evaluable type). -/
+theorem c19_fed_twice_rejected (env : TyEnv) (b : JobBuilder)
+    (h : ¬ (b.edges.map Edge.sinkInput).Nodup) : ∀ j, build env b ≠ .ok (.job j) := by
+  intro j hj
+  exact h (by have := (c19_accepted_wellformed env b j hj); rw [this.2.1] at this; exact this.2.2.2)
 
 /-- **Never crashes.**  For a builder whose tasks declare only absent or evaluable (builtin)
 types, `build` returns a job or a NON-EMPTY list of problems — never an exception (`.error`). -/
@@ -582,25 +619,219 @@ theorem c19_values_in_job (env : TyEnv) (b : JobBuilder) (n : String) (t : Task)
   intro m hm
   simp [withNode, lookup_dset, Ne.symm hm]
 
-/-- **Persistence.**  Every builder call creates a new object; objects created earlier
-(tasks, builders, results of `build`, i.e. jobs) are what they were, whatever is done later. -/
+/-- **Persistence (of the model's store).**  `run` only appends: objects created earlier (tasks,
+builders, results of `build`, i.e. jobs) are what they were, whatever is done later. The model holds
+values, not references, so this is a fact about the MODEL; that the real builders never write to an
+earlier object is what the correspondence check observes (every earlier real object is re-read after
+every call and compared with this store). -/
 theorem c19_persistent (env : TyEnv) (store : List Obj) (ops : List Op) (i : Nat) (h : i < store.length) :
     (run env store ops)[i]? = store[i]? := by
   obtain ⟨rest, hr⟩ := run_prefix env ops store
   rw [hr, List.getElem?_append_left h]
 
-/-- builder-level reading of persistence: adding nodes/edges to a builder does not change what
-the original builder builds, and the new builder keeps all earlier edges in order -/
-theorem c19_persistent_builder (b : JobBuilder) (n : String) (t : Task) (src snk frum : String) (into : Into) :
+namespace Aux
+/-- (definitional; not counted as a property theorem) adding nodes/edges yields a builder that
+differs from the original only by that node / edge -/
+theorem persistent_builder (b : JobBuilder) (n : String) (t : Task) (src snk frum : String) (into : Into) :
     (withNode b n t).edges = b.edges ∧ (withEdge b src snk into frum).nodes = b.nodes ∧
     (withEdge b src snk into frum).edges = b.edges ++ [⟨src, frum, snk, into⟩] := ⟨rfl, rfl, rfl⟩
+end Aux
+
+/-! ### the chain builder → scheduler: an accepted job satisfies what C16 (and C01–C04) assume -/
+
+/-- the job as `cascade.scheduler.graph.precompute` reads it (Model/Presched.lean): task ids with the
+names of their outputs, edges with their sink input -/
+def toPresched (j : Job) : Presched.Job String String :=
+  { tasks := j.tasks.map (fun nt => (nt.1, nt.2.defn.outputSchema.map (·.1)))
+    edges := j.edges.map (fun e =>
+      { src := e.src, out := e.out, dst := e.sink,
+        key := match e.into with | .kw p => .kw p | .ps i => .ps i }) }
+
+namespace Aux
+
+def keysOf {α : Type} (d : List (String × α)) : List String := d.map (·.1)
+
+theorem keysOf_dset {α : Type} (d : List (String × α)) (k : String) (v : α) (h : (keysOf d).Nodup) :
+    (keysOf (dset d k v)).Nodup := by
+  induction d with
+  | nil => simp [dset, keysOf]
+  | cons hd tl ih =>
+    obtain ⟨a, b⟩ := hd
+    simp only [keysOf, List.map_cons, List.nodup_cons] at h
+    simp only [dset]
+    by_cases hk : a = k
+    · subst hk
+      simpa [keysOf] using h
+    · simp only [hk, ↓reduceIte, keysOf, List.map_cons, List.nodup_cons]
+      refine ⟨?_, ih h.2⟩
+      intro hm
+      obtain ⟨x, hx, hxa⟩ := List.mem_map.mp hm
+      rcases mem_dset _ _ _ _ hx with hx | hx
+      · exact h.1 (List.mem_map.mpr ⟨x, hx, hxa⟩)
+      · rw [hx] at hxa; exact hk hxa.symm
+
+theorem lookup_some_mem_keys {α : Type} (d : List (String × α)) (k : String) (v : α) (h : lookup d k = some v) :
+    k ∈ keysOf d := List.mem_map.mpr ⟨(k, v), lookup_mem d k v h, rfl⟩
+
+theorem key_inj (a b : Into) (h : (match a with | .kw p => Presched.Key.kw p | .ps i => Presched.Key.ps i) =
+    (match b with | .kw p => Presched.Key.kw p | .ps i => Presched.Key.ps i)) : a = b := by
+  cases a <;> cases b <;> simp_all
+
+theorem eq_of_nodup_map {α β : Type} (f : α → β) : ∀ (l : List α), (l.map f).Nodup →
+    ∀ a ∈ l, ∀ b ∈ l, f a = f b → a = b := by
+  intro l
+  induction l with
+  | nil => intro _ a ha; cases ha
+  | cons x xs ih =>
+    intro h a ha b hb hab
+    simp only [List.map_cons, List.nodup_cons, List.mem_map, not_exists, not_and] at h
+    rcases List.mem_cons.mp ha with ha1 | ha1
+    · rcases List.mem_cons.mp hb with hb1 | hb1
+      · rw [ha1, hb1]
+      · rw [ha1] at hab; exact absurd hab.symm (h.1 b hb1)
+    · rcases List.mem_cons.mp hb with hb1 | hb1
+      · rw [hb1] at hab; exact absurd hab (h.1 a ha1)
+      · exact ih h.2 a ha1 b hb1 hab
+
+/-- the store invariant behind `c19_accepted_presched_wf_run`: builders have distinct node names -/
+def ObjNames : Obj → Prop
+  | .builder b => (keysOf b.nodes).Nodup
+  | _ => True
+
+end Aux
+
+/-- **Accepted ⇒ what the scheduler assumes.**  For a builder with distinct node names (every builder
+made by `with_node` from the empty one: `c19_accepted_presched_wf_run`), an accepted job read as a
+scheduler job is well-formed in the sense of C16 (`Presched.Job.WF`: task ids distinct, both ends of
+every edge are tasks) and no sink input has two sources (`Presched.Job.UniqueInputs`, the hypothesis
+under which the executor's `param_source` agrees with the scheduler's `edge_i`). So every `c16_*`
+theorem applies to it as soon as it is acyclic — which `build` does NOT check
+(`c19_accepted_may_be_cyclic`). -/
+theorem c19_accepted_presched_wf (env : TyEnv) (b : JobBuilder) (j : Job)
+    (hk : (Aux.keysOf b.nodes).Nodup) (h : build env b = .ok (.job j)) :
+    (toPresched j).WF ∧ (toPresched j).UniqueInputs := by
+  obtain ⟨ht, he, hok, hnd⟩ := c19_accepted_wellformed env b j h
+  refine ⟨⟨?_, ?_, ?_⟩, ?_⟩
+  · show ((toPresched j).tasks.map (·.1)).Nodup
+    simp only [toPresched, List.map_map]
+    rw [ht]
+    exact hk
+  · intro e he'
+    simp only [toPresched, List.mem_map] at he'
+    obtain ⟨e0, he0, rfl⟩ := he'
+    obtain ⟨st, ot, kt, h1, _, _, _⟩ := hok e0 he0
+    show e0.src ∈ (toPresched j).tasks.map (·.1)
+    simp only [toPresched, List.map_map]
+    exact lookup_some_mem_keys _ _ _ h1
+  · intro e he'
+    simp only [toPresched, List.mem_map] at he'
+    obtain ⟨e0, he0, rfl⟩ := he'
+    obtain ⟨st, ot, kt, _, _, h3, _⟩ := hok e0 he0
+    show e0.sink ∈ (toPresched j).tasks.map (·.1)
+    simp only [toPresched, List.map_map]
+    exact lookup_some_mem_keys _ _ _ h3
+  · intro e1 h1 e2 h2 hd hkey
+    simp only [toPresched, List.mem_map] at h1 h2
+    obtain ⟨a, ha, rfl⟩ := h1
+    obtain ⟨c, hc, rfl⟩ := h2
+    simp only at hd hkey
+    have hsi : a.sinkInput = c.sinkInput := by
+      unfold Edge.sinkInput
+      rw [hd, key_inj _ _ hkey]
+    have hac : a = c := eq_of_nodup_map Edge.sinkInput _ hnd a ha c hc hsi
+    subst hac
+    exact ⟨rfl, rfl⟩
+
+/-- …for every program of builder calls: every job any `build` returns is well-formed for the scheduler. -/
+theorem c19_accepted_presched_wf_run (env : TyEnv) (ops : List Op) :
+    ∀ j, Obj.result (.ok (.job j)) ∈ run env [] ops → (toPresched j).WF ∧ (toPresched j).UniqueInputs := by
+  -- invariant: builders have distinct names, accepted jobs are well-formed
+  let Good : Obj → Prop := fun o => ObjNames o ∧
+    (∀ j, o = Obj.result (.ok (.job j)) → (toPresched j).WF ∧ (toPresched j).UniqueInputs)
+  have step_ok : ∀ (store : List Obj) (op : Op), (∀ o ∈ store, Good o) → Good (evalOp env store op) := by
+    intro store op hs
+    have names : ∀ (i : Nat) (jb : JobBuilder), store[i]? = some (Obj.builder jb) → (keysOf jb.nodes).Nodup :=
+      fun i jb hi => (hs _ (List.mem_of_getElem? hi)).1
+    cases op with
+    | fromCallable s e => exact ⟨trivial, by intro j hj; cases hj⟩
+    | fromEntrypoint a b c d => exact ⟨trivial, by intro j hj; cases hj⟩
+    | withValues t args kwargs =>
+      simp only [evalOp]
+      cases h : store[t]? with
+      | none => exact ⟨trivial, by intro j hj; cases hj⟩
+      | some o => cases o <;> exact ⟨trivial, by intro j hj; cases hj⟩
+    | newBuilder => exact ⟨by simp [evalOp, ObjNames, JobBuilder.empty, keysOf], by intro j hj; cases hj⟩
+    | withNode b name t =>
+      simp only [evalOp]
+      cases hb : store[b]? with
+      | none => exact ⟨trivial, by intro j hj; cases hj⟩
+      | some ob =>
+        cases ob with
+        | builder jb =>
+          cases ht : store[t]? with
+          | none => exact ⟨trivial, by intro j hj; cases hj⟩
+          | some ot =>
+            cases ot with
+            | task tk => exact ⟨keysOf_dset _ _ _ (names b jb hb), by intro j hj; cases hj⟩
+            | _ => exact ⟨trivial, by intro j hj; cases hj⟩
+        | _ => exact ⟨trivial, by intro j hj; cases hj⟩
+    | withEdge b source sink into frum =>
+      simp only [evalOp]
+      cases hb : store[b]? with
+      | none => exact ⟨trivial, by intro j hj; cases hj⟩
+      | some ob =>
+        cases ob with
+        | builder jb => cases frum <;> exact ⟨names b jb hb, by intro j hj; cases hj⟩
+        | _ => exact ⟨trivial, by intro j hj; cases hj⟩
+    | build b =>
+      simp only [evalOp]
+      cases hb : store[b]? with
+      | none => exact ⟨trivial, by intro j hj; cases hj⟩
+      | some ob =>
+        cases ob with
+        | builder jb =>
+          refine ⟨trivial, ?_⟩
+          intro j hj
+          simp only [Obj.result.injEq] at hj
+          exact c19_accepted_presched_wf env jb j (names b jb hb) hj
+        | _ => exact ⟨trivial, by intro j hj; cases hj⟩
+  have run_ok' : ∀ (ops : List Op) (store : List Obj), (∀ o ∈ store, Good o) → ∀ o ∈ run env store ops, Good o := by
+    intro ops
+    induction ops with
+    | nil => intro store hs; simpa [run] using hs
+    | cons op ops ih =>
+      intro store hs
+      simp only [run, List.foldl_cons]
+      apply ih
+      intro o ho
+      simp only [step, List.mem_append, List.mem_singleton] at ho
+      rcases ho with ho | ho
+      · exact hs o ho
+      · rw [ho]; exact step_ok store op hs
+  intro j hj
+  exact (run_ok' ops [] (by intro o ho; cases ho) _ hj).2 j rfl
+
+/-- What `build` does NOT establish: acyclicity. A two-task cycle is accepted; read as a scheduler
+job it is not a DAG (`Presched.IsDag` is the explicit hypothesis of the `c16_*` theorems and of the
+controller model's `WF.topo`; nothing between the builder and `precompute` rejects a cycle). -/
+theorem c19_accepted_may_be_cyclic :
+    ∃ (b : JobBuilder) (j : Job), (Aux.keysOf b.nodes).Nodup ∧ build builtinEnv b = .ok (.job j) ∧
+      ¬ Presched.IsDag (toPresched j) := by
+  let t : Task := fromCallable { params := [⟨"x", .posOrKw, .absent, none⟩], ret := .absent }
+  let b : JobBuilder := withEdge (withEdge (withNode (withNode JobBuilder.empty "a" t) "b" t) "a" "b" (.kw "x")) "b" "a" (.kw "x")
+  refine ⟨b, { tasks := b.nodes, edges := b.edges }, by decide, by decide, ?_⟩
+  rintro ⟨rk, hrk⟩
+  have h1 := hrk ⟨"a", "0", "b", .kw "x"⟩ (by decide)
+  have h2 := hrk ⟨"b", "0", "a", .kw "x"⟩ (by decide)
+  simp only at h1 h2
+  omega
 
 /-! ### non-vacuity -/
 
-def exSrc : Task := fromCallable { params := [⟨"x", .posOrKw, none, none⟩], ret := some "int" }
+def exSrc : Task := fromCallable { params := [⟨"x", .posOrKw, .absent, none⟩], ret := .named "int" }
 def exSnk : Task := fromCallable
-  { params := [⟨"a", .posOrKw, some "int", none⟩, ⟨"b", .posOrKw, some "str", some ⟨"str", "'q'"⟩⟩,
-               ⟨"c", .kwOnly, none, some ⟨"int", "3"⟩⟩, ⟨"r", .varPos, none, none⟩], ret := none }
+  { params := [⟨"a", .posOrKw, .named "int", none⟩, ⟨"b", .posOrKw, .named "str", some ⟨"str", "'q'"⟩⟩,
+               ⟨"c", .kwOnly, .absent, some ⟨"int", "3"⟩⟩, ⟨"r", .varPos, .absent, none⟩], ret := .nameless }
 def exB : JobBuilder := withNode (withNode JobBuilder.empty "s" (withValues exSrc [⟨"str", "'xy'"⟩] [])) "k" exSnk
 
 -- accepted: int output into int parameter
@@ -609,23 +840,35 @@ example : build builtinEnv (withEdge exB "s" "k" (.kw "a")) =
 -- rejected with the problem list: incompatible types, missing sink task (source fine), missing output
 example : build builtinEnv (withEdge (withEdge (withEdge exB "s" "k" (.kw "b")) "s" "nope" (.kw "a")) "s" "k" (.ps 0) "1")
     = .ok (.problems [.incompatible ⟨"s", "0", "k", .kw "b"⟩, .toNoTask "nope", .fromNoParam "1"]) := by decide
+-- rejected: parameter `a` of `k` fed by two edges (the second is reported); two edges into DIFFERENT inputs are fine
+example : build builtinEnv (withEdge (withEdge exB "s" "k" (.kw "a")) "s" "k" (.kw "a"))
+    = .ok (.problems [.fedTwice ⟨"s", "0", "k", .kw "a"⟩]) := by decide
+example : build builtinEnv (withEdge (withEdge exB "s" "k" (.kw "a")) "s" "k" (.ps 1)) =
+    .ok (.job { tasks := exB.nodes, edges := [⟨"s", "0", "k", .kw "a"⟩, ⟨"s", "0", "k", .ps 1⟩] }) := by decide
+-- the accepted job as the scheduler reads it
+example : (toPresched { tasks := exB.nodes, edges := [⟨"s", "0", "k", .kw "a"⟩] }).edges = [⟨"s", "0", "k", .kw "a"⟩] ∧
+    (toPresched { tasks := exB.nodes, edges := [] }).tasks = [("s", ["0"]), ("k", ["0"])] := by decide
+-- `-> None` (an annotation object without `__name__`) is an unvalidated output
+example : exSnk.defn.outputSchema = [("0", "Any")] := by decide
 -- the hypothesis of c19_never_crashes holds for it
 example : NodesKnown builtinEnv exB.nodes := by
   intro n t h
   simp only [exB, withNode, dset, JobBuilder.empty] at h
   simp at h
   rcases h with ⟨_, rfl⟩ | ⟨_, rfl⟩
-  · exact fromCallable_known builtinEnv { params := [⟨"x", .posOrKw, none, none⟩], ret := some "int" } (by decide)
-  · exact fromCallable_known builtinEnv _ (by decide)
+  · exact fromCallable_known builtinEnv { params := [⟨"x", .posOrKw, .absent, none⟩], ret := .named "int" } [] (by decide)
+  · exact fromCallable_known builtinEnv _ [] (by decide)
 -- a crash exists in the model when the hypothesis fails: a class name that is not evaluable
 example : build builtinEnv (withEdge (withNode (withNode JobBuilder.empty "s"
-      (fromCallable { params := [], ret := some "Foo" })) "k" exSnk) "s" "k" (.kw "a")) = .error .nameError := by decide
+      (fromCallable { params := [], ret := .named "Foo" })) "k" exSnk) "s" "k" (.kw "a")) = .error .nameError := by decide
 -- values: positional 'xy' is under position 0 (not {'x': 'y'}), a later call overrides, defaults stay
 example : lookup (withValues exSrc [⟨"str", "'xy'"⟩] []).ps 0 = some ⟨"str", "'xy'"⟩ := by decide
 example : lookup (withValues (withValues exSnk [⟨"int", "7"⟩] [("b", ⟨"str", "'u'"⟩)]) [⟨"int", "8"⟩] [("c", ⟨"int", "4"⟩)]).kw "b" = some ⟨"str", "'u'"⟩
     ∧ lookup (withValues (withValues exSnk [⟨"int", "7"⟩] [("b", ⟨"str", "'u'"⟩)]) [⟨"int", "8"⟩] [("c", ⟨"int", "4"⟩)]).ps 0 = some ⟨"int", "8"⟩
     ∧ lookup (withValues (withValues exSnk [⟨"int", "7"⟩] [("b", ⟨"str", "'u'"⟩)]) [⟨"int", "8"⟩] [("c", ⟨"int", "4"⟩)]).kw "c" = some ⟨"int", "4"⟩ := by decide
 -- persistence on a concrete program
-example : (run builtinEnv [] [.newBuilder, .fromCallable ⟨[], none⟩, .withNode 0 "a" 1, .build 2, .withEdge 2 "a" "z" (.ps 0) "0", .build 4]).length = 6 := by decide
+example : (run builtinEnv [] [.newBuilder, .fromCallable ⟨[], .absent⟩ [], .withNode 0 "a" 1, .build 2, .withEdge 2 "a" "z" (.ps 0) (some "0"), .build 4]).length = 6 := by decide
+-- the default of `with_edge(frum=…)` is the output name `from_callable` declares
+example : (withEdge exB "s" "k" (.kw "a")).edges = [⟨"s", "0", "k", .kw "a"⟩] ∧ exSrc.defn.outputSchema.map (·.1) = ["0"] := by decide
 
 end EkwVerif.Builder
